@@ -1,9 +1,20 @@
+//! C30 grammar: tick-scoped transformers `T : Stream<i32, Tick> -> Stream<i32, Tick>`.
+//!
+//! Every operator of the property's grammar is wrapped so that input and output are a totally
+//! ordered bounded stream of `i32` inside the tick; depth-2 programs are plain function
+//! composition (done by `emb/build.rs`). Aggregates are re-exported with `into_stream()` (a
+//! singleton becomes a one-element batch, an empty optional an empty batch); tuples are folded
+//! into one `i32` by an injective-enough arithmetic code (wrapping arithmetic, mirrored exactly
+//! by the reference interpreter in `emb/src/refsem.rs`).
 use hydro_lang::live_collections::stream::{ExactlyOnce, TotalOrder};
 use hydro_lang::prelude::*;
 
 pub type P<'a> = Process<'a, ()>;
 pub type TS<'a> = Stream<i32, Tick<P<'a>>, Bounded, TotalOrder, ExactlyOnce>;
 pub type OpFn = for<'a> fn(TS<'a>) -> TS<'a>;
+pub type Op2Fn = for<'a> fn(TS<'a>, TS<'a>) -> TS<'a>;
+
+// ---------------------------------------------------------------- aggregates
 
 pub fn t_fold<'a>(s: TS<'a>) -> TS<'a> {
     s.fold(
@@ -13,14 +24,313 @@ pub fn t_fold<'a>(s: TS<'a>) -> TS<'a> {
     .into_stream()
 }
 
+pub fn t_reduce<'a>(s: TS<'a>) -> TS<'a> {
+    s.reduce(q!(|a: &mut i32, x: i32| *a = a.wrapping_mul(3).wrapping_add(x)))
+        .into_stream()
+}
+
+pub fn t_count<'a>(s: TS<'a>) -> TS<'a> {
+    s.count().map(q!(|c| c as i32)).into_stream()
+}
+
+pub fn t_max<'a>(s: TS<'a>) -> TS<'a> {
+    s.max().into_stream()
+}
+
+pub fn t_min<'a>(s: TS<'a>) -> TS<'a> {
+    s.min().into_stream()
+}
+
+pub fn t_first<'a>(s: TS<'a>) -> TS<'a> {
+    s.first().into_stream()
+}
+
+pub fn t_last<'a>(s: TS<'a>) -> TS<'a> {
+    s.last().into_stream()
+}
+
+// ---------------------------------------------------------------- order / prefix
+
+pub fn t_limit0<'a>(s: TS<'a>) -> TS<'a> {
+    s.limit(q!(0usize))
+}
+
+pub fn t_limit1<'a>(s: TS<'a>) -> TS<'a> {
+    s.limit(q!(1usize))
+}
+
+pub fn t_limit2<'a>(s: TS<'a>) -> TS<'a> {
+    s.limit(q!(2usize))
+}
+
 pub fn t_sort<'a>(s: TS<'a>) -> TS<'a> {
     s.sort()
 }
+
+pub fn t_enum<'a>(s: TS<'a>) -> TS<'a> {
+    s.enumerate()
+        .map(q!(|(i, x)| (i as i32).wrapping_mul(1000).wrapping_add(x)))
+}
+
+// ---------------------------------------------------------------- singleton / joins
+
+pub fn t_xsing_count<'a>(s: TS<'a>) -> TS<'a> {
+    let c = s.clone().count();
+    s.cross_singleton(c)
+        .map(q!(|(x, c)| x.wrapping_mul(10).wrapping_add(c as i32)))
+}
+
+/// cross_singleton with an Optional that is absent whenever the batch has no multiple of 3.
+pub fn t_xsing_opt<'a>(s: TS<'a>) -> TS<'a> {
+    let z = s.clone().filter(q!(|x| *x % 3 == 0)).first();
+    s.cross_singleton(z)
+        .map(q!(|(x, z)| x.wrapping_mul(10).wrapping_add(z).wrapping_add(5)))
+}
+
+/// join whose bounded (build) side has exactly one row per key => exactly one match per probe
+/// row; the output must be the probe order.
+pub fn t_join_u<'a>(s: TS<'a>) -> TS<'a> {
+    let build = s
+        .clone()
+        .count()
+        .flat_map_ordered(q!(|c| vec![(0i32, c as i32), (1i32, c as i32 + 5)]));
+    s.map(q!(|x| (x & 1, x)))
+        .join(build)
+        .map(q!(|(_k, (v, w))| v.wrapping_mul(10).wrapping_add(w)))
+}
+
+/// join against the batch itself (several matches per probe row, duplicates on both sides).
+/// Only used as the outermost operator: the order *within* one probe row's matches is not
+/// promised by the property, so the driver compares those runs as multisets.
+pub fn t_join_m<'a>(s: TS<'a>) -> TS<'a> {
+    let build = s.clone().map(q!(|x| (x & 1, x)));
+    s.map(q!(|x| (x & 1, x)))
+        .join(build)
+        .map(q!(|(_k, (v, w))| v.wrapping_mul(100).wrapping_add(w)))
+}
+
+pub fn t_antijoin_same<'a>(s: TS<'a>) -> TS<'a> {
+    let neg = s
+        .clone()
+        .filter(q!(|x| *x >= 1))
+        .map(q!(|x| x.wrapping_sub(1) & 1));
+    s.map(q!(|x| (x & 1, x))).anti_join(neg).map(q!(|(_k, v)| v))
+}
+
+/// Items of this batch that did not occur in the previous batch.
+pub fn t_antijoin_prev<'a>(s: TS<'a>) -> TS<'a> {
+    let neg = s.clone().defer_tick();
+    s.map(q!(|x| (x, x))).anti_join(neg).map(q!(|(_k, v)| v))
+}
+
+// ---------------------------------------------------------------- next-tick values
 
 pub fn t_defer<'a>(s: TS<'a>) -> TS<'a> {
     s.defer_tick()
 }
 
+/// Stream cycle: out_t = carry_t ++ batch_t ; carry_{t+1} = odd items of out_t.
+pub fn t_cyc_carry<'a>(s: TS<'a>) -> TS<'a> {
+    let tick = s.location().clone();
+    let (h, prev) = tick.cycle::<TS<'a>, _>();
+    let out = prev.chain(s);
+    h.complete_next_tick(out.clone().filter(q!(|x| *x & 1 == 1)));
+    out
+}
+
+/// Optional cycle: total_t = sum(batch_t) + (prev_t or 100); prev_{t+1} = total_t only if even.
+pub fn t_cyc_opt<'a>(s: TS<'a>) -> TS<'a> {
+    let tick = s.location().clone();
+    let (h, prev) = tick.cycle::<Optional<i32, Tick<P<'a>>, Bounded>, _>();
+    let sum = s.fold(q!(|| 0i32), q!(|a: &mut i32, x: i32| *a = a.wrapping_add(x)));
+    let total = sum
+        .zip(prev.unwrap_or(tick.singleton(q!(100i32))))
+        .map(q!(|(a, b)| a.wrapping_add(b)));
+    h.complete_next_tick(total.clone().filter(q!(|t| *t & 1 == 0)));
+    total.into_stream()
+}
+
+/// Singleton cycle with initial value: v_0 = 7 ; v_{t+1} = 2 v_t + |batch_t| ; emits v_t.
+pub fn t_cyc_init<'a>(s: TS<'a>) -> TS<'a> {
+    let tick = s.location().clone();
+    let (h, v) = tick.cycle_with_initial(tick.singleton(q!(7i32)));
+    let next = v
+        .clone()
+        .zip(s.count())
+        .map(q!(|(v, c)| v.wrapping_mul(2).wrapping_add(c as i32)));
+    h.complete_next_tick(next);
+    v.into_stream()
+}
+
+// ---------------------------------------------------------------- across_ticks
+
+pub fn t_across_count<'a>(s: TS<'a>) -> TS<'a> {
+    s.across_ticks(|a| a.count())
+        .map(q!(|c| c as i32))
+        .into_stream()
+}
+
+pub fn t_across_fold<'a>(s: TS<'a>) -> TS<'a> {
+    s.across_ticks(|a| {
+        a.fold(
+            q!(|| 0i32),
+            q!(|acc: &mut i32, x: i32| *acc = acc.wrapping_mul(3).wrapping_add(x).wrapping_add(1)),
+        )
+    })
+    .into_stream()
+}
+
+pub fn t_across_enum<'a>(s: TS<'a>) -> TS<'a> {
+    s.across_ticks(|a| a.enumerate())
+        .map(q!(|(i, x)| (i as i32).wrapping_mul(1000).wrapping_add(x)))
+}
+
+// ---------------------------------------------------------------- by_ref / by_mut (handoff_ref.rs)
+
+pub fn t_byref_single<'a>(s: TS<'a>) -> TS<'a> {
+    let c = s.clone().count();
+    let r = c.by_ref();
+    s.map(q!(|x| x.wrapping_mul(10).wrapping_add(*r as i32)))
+}
+
+pub fn t_byref_opt<'a>(s: TS<'a>) -> TS<'a> {
+    let m = s.clone().max();
+    let r = m.by_ref();
+    s.map(q!(|x| x.wrapping_mul(10).wrapping_add(r.unwrap_or(-1))))
+}
+
+pub fn t_byref_stream<'a>(s: TS<'a>) -> TS<'a> {
+    let t = s.clone().map(q!(|x| x.wrapping_add(1)));
+    let r = t.by_ref();
+    s.map(q!(|x| x
+        .wrapping_mul(100)
+        .wrapping_add(r.iter().fold(0i32, |a, b| a.wrapping_mul(3).wrapping_add(*b)))))
+}
+
+pub fn t_bymut<'a>(s: TS<'a>) -> TS<'a> {
+    let c = s
+        .clone()
+        .fold(q!(|| 0i32), q!(|a: &mut i32, x: i32| *a = a.wrapping_add(x)));
+    let m = c.by_mut();
+    s.map(q!(|x| {
+        *m = m.wrapping_add(x);
+        x.wrapping_mul(100).wrapping_add(*m)
+    }))
+}
+
+/// read (group 0), then mutate (group 1), then read again (group 2) the same tick-scoped fold.
+pub fn t_ref_mut_ref<'a>(s: TS<'a>) -> TS<'a> {
+    let c = s
+        .clone()
+        .fold(q!(|| 0i32), q!(|a: &mut i32, x: i32| *a = a.wrapping_add(x)));
+    let r1 = c.by_ref();
+    let a = s.clone().map(q!(|x| x.wrapping_mul(100).wrapping_add(*r1)));
+    let m = c.by_mut();
+    let b = s.clone().map(q!(|x| {
+        *m = m.wrapping_add(x).wrapping_add(1);
+        x.wrapping_mul(100).wrapping_add(*m)
+    }));
+    let r2 = c.by_ref();
+    let d = s.map(q!(|x| x.wrapping_mul(100).wrapping_add(*r2).wrapping_add(50)));
+    a.chain(b).chain(d)
+}
+
+// ---------------------------------------------------------------- two-input programs
+
+pub fn u_join_ab<'a>(a: TS<'a>, b: TS<'a>) -> TS<'a> {
+    a.map(q!(|x| (x & 1, x)))
+        .join(b.map(q!(|x| (x & 1, x.wrapping_add(10)))))
+        .map(q!(|(_k, (v, w))| v.wrapping_mul(100).wrapping_add(w)))
+}
+
+pub fn u_join_ba<'a>(a: TS<'a>, b: TS<'a>) -> TS<'a> {
+    b.map(q!(|x| (x & 1, x)))
+        .join(a.map(q!(|x| (x & 1, x.wrapping_add(10)))))
+        .map(q!(|(_k, (v, w))| v.wrapping_mul(100).wrapping_add(w)))
+}
+
+pub fn u_antijoin<'a>(a: TS<'a>, b: TS<'a>) -> TS<'a> {
+    a.map(q!(|x| (x, x))).anti_join(b).map(q!(|(_k, v)| v))
+}
+
+pub fn u_antijoin_defer<'a>(a: TS<'a>, b: TS<'a>) -> TS<'a> {
+    a.map(q!(|x| (x, x)))
+        .anti_join(b.defer_tick())
+        .map(q!(|(_k, v)| v))
+}
+
+pub fn u_xsing<'a>(a: TS<'a>, b: TS<'a>) -> TS<'a> {
+    a.cross_singleton(b.first())
+        .map(q!(|(x, z)| x.wrapping_mul(10).wrapping_add(z)))
+}
+
+pub fn u_chain_defer<'a>(a: TS<'a>, b: TS<'a>) -> TS<'a> {
+    a.defer_tick().chain(b)
+}
+
+// ---------------------------------------------------------------- tables
+
+/// All unary operators of the grammar (depth-1 programs).
 pub fn ops() -> Vec<(&'static str, OpFn)> {
-    vec![("fold", t_fold), ("sort", t_sort), ("defer", t_defer)]
+    vec![
+        ("fold", t_fold as OpFn),
+        ("reduce", t_reduce),
+        ("count", t_count),
+        ("max", t_max),
+        ("min", t_min),
+        ("first", t_first),
+        ("last", t_last),
+        ("limit0", t_limit0),
+        ("limit1", t_limit1),
+        ("limit2", t_limit2),
+        ("sort", t_sort),
+        ("enum", t_enum),
+        ("xsing_count", t_xsing_count),
+        ("xsing_opt", t_xsing_opt),
+        ("join_u", t_join_u),
+        ("join_m", t_join_m),
+        ("antijoin_same", t_antijoin_same),
+        ("antijoin_prev", t_antijoin_prev),
+        ("defer", t_defer),
+        ("cyc_carry", t_cyc_carry),
+        ("cyc_opt", t_cyc_opt),
+        ("cyc_init", t_cyc_init),
+        ("across_count", t_across_count),
+        ("across_fold", t_across_fold),
+        ("across_enum", t_across_enum),
+        ("byref_single", t_byref_single),
+        ("byref_opt", t_byref_opt),
+        ("byref_stream", t_byref_stream),
+        ("bymut", t_bymut),
+        ("ref_mut_ref", t_ref_mut_ref),
+    ]
+}
+
+/// Operators used on both levels of the depth-2 compositions (one per mechanism class).
+pub fn core_ops() -> Vec<&'static str> {
+    vec![
+        "fold",
+        "last",
+        "limit2",
+        "sort",
+        "enum",
+        "xsing_count",
+        "join_u",
+        "antijoin_prev",
+        "defer",
+        "cyc_carry",
+        "across_fold",
+        "bymut",
+    ]
+}
+
+pub fn ops2() -> Vec<(&'static str, Op2Fn)> {
+    vec![
+        ("join_ab", u_join_ab as Op2Fn),
+        ("join_ba", u_join_ba),
+        ("antijoin", u_antijoin),
+        ("antijoin_defer", u_antijoin_defer),
+        ("xsing", u_xsing),
+        ("chain_defer", u_chain_defer),
+    ]
 }
